@@ -424,6 +424,11 @@ def external_module(it, dotted):
     elif dotted == 'os.path':
         a.update(join=_uf_join(), dirname=_uf_str('os.path.dirname', 1), basename=_uf_str('os.path.basename', 1),
                  exists=Builtin('os.path.exists', _fs_exists))
+    elif dotted == 'queue':
+        lib.EXC_PARENT.setdefault('Empty', 'Exception')
+        lib.EXC_PARENT.setdefault('Full', 'Exception')
+        a['Empty'] = lib.exc_class('Empty')
+        a['Full'] = lib.exc_class('Full')
     elif dotted == 'sys':
         a['stdout'] = Opaque('file', 'sys.stdout')
         a['stdin'] = Opaque('file', 'sys.stdin')
